@@ -80,7 +80,7 @@ impl Alphabets {
             "u8": self.u8_, "i8": self.i8_, "u16": self.u16_, "i16": self.i16_,
             "u32": self.u32_, "i32": self.i32_, "u64": self.u64_, "i64": self.i64_,
             "Uint24": self.u24, "Int24": self.i24, "float": self.f, "string": self.strings.iter().map(|s| if s.len() > 40 { format!("'x' repeated {} times", s.len()) } else { s.clone() }).collect::<Vec<_>>(), "field_alphabets": FIELD_ALPHABETS.iter().map(|(s, f, a)| format!("{s}.{f}: {a:?}")).collect::<Vec<_>>(),
-            "seq_len": self.seq_lens, "Tag": TAGS, "TupleIndex": TUPLE_INDEX, "flags word": "0, every constant declared in the schema's flags block, their union, all ones", "option": ["None", "Some"], "enum": "all variants",
+            "seq_len": self.seq_lens, "Tag": TAGS, "Version16Dot16": VERSIONS_16DOT16, "TupleIndex": TUPLE_INDEX, "flags word": "0, every constant declared in the schema's flags block, their union, all ones", "option": ["None", "Some"], "enum": "all variants",
             "literal #[count(N)] arrays": format!("exactly N elements; for N > {PIN_ABOVE} only elements 0, 1 and N-1 vary, the rest stay default"),
         })
     }
@@ -131,6 +131,8 @@ pub const FIELD_ALPHABETS: &[(&str, &str, &[u16])] = &[
 /// TupleIndex alphabet: 0, an index, EMBEDDED_PEAK_TUPLE, INTERMEDIATE_REGION, PRIVATE_POINT_NUMBERS,
 /// peak+intermediate, everything
 pub const TUPLE_INDEX: [u16; 7] = [0, 1, 0x8000, 0x4000, 0x2000, 0xC000, 0xFFFF];
+
+pub const VERSIONS_16DOT16: [u32; 8] = [0, 0x0000_5000, 0x0001_0000, 0x0001_1000, 0x0002_0000, 0x0002_5000, 0x0003_0000, 0xFFFF_FFFF];
 
 /// tag alphabet: a neutral tag first, then the tags that hand-written readers dispatch on
 pub const TAGS: [&str; 7] = ["aaaa", "size", "ss01", "cv01", "dlng", "slng", "DFLT"];
@@ -249,8 +251,12 @@ impl<'de, 'a, 't> de::Deserializer<'de> for &'a mut TapeDe<'t> {
             return v.visit_u32(x as u32);
         }
         let a = self.alpha;
-        let x = if self.newtype.take() == Some("Uint24") {
+        let nt = self.newtype.take();
+        let x = if nt == Some("Uint24") {
             self.pick(&a.u24)
+        } else if nt == Some("Version16Dot16") {
+            // 0, then the versions the tables define: 0.5, 1.0, 1.1, 2.0, 2.5, 3.0, and all ones
+            self.pick(&VERSIONS_16DOT16)
         } else {
             self.pick(&a.u32_)
         };
